@@ -1521,6 +1521,8 @@ class Engine:
         a, b = self.num(a, e), self.num(b, e)
         if isinstance(a, bytes) and isinstance(b, bytes) and isinstance(op, ast.Add):
             return a + b
+        if isinstance(a, PyList) and isinstance(b, PyList) and isinstance(op, ast.Add):
+            return PyList(list(a.items) + list(b.items))
         if isinstance(op, ast.Mult) and ((isinstance(a, bytes) and isinstance(b, int)) or (isinstance(a, int) and isinstance(b, bytes))) \
                 and not isinstance(a, bool) and not isinstance(b, bool):
             return a * b
